@@ -478,6 +478,51 @@ def check_handler_passthrough(eng, run):
     run.floor("C16.iso datagram listener serve() implementations", n, 2)
 
 
+def check_trio_listener(eng, run):
+    """the trio twin of the datagram listener (decided from its source although the sandbox cannot run trio): the receive loop yields
+    to the scheduler after *every* datagram (`always_yield=True`: tasks started back-to-back in one scheduler batch have no defined
+    order), and that yield - taken while the datagram is held in a local - is a shielded one (`cancel_shielded_checkpoint`): a plain
+    checkpoint is a cancellation point, and a datagram already taken from the socket would be dropped there"""
+    lst = eng.db.modules.get("easynetwork.lowlevel.api_async.backend._trio.datagram.listener")
+    util = eng.db.modules.get("easynetwork.lowlevel.api_async.backend._trio._trio_utils")
+    if lst is None or util is None:
+        return
+    n = 0
+    for fn in [f for c in lst.classes.values() for f in c.methods.values() if f.name == "serve"]:
+        for c in own_nodes(fn.node):
+            if isinstance(c, ast.Call) and (dotted(c.func) or "").split(".")[-1].lstrip("_") == "retry_socket_method":
+                n += 1
+                kw = next((k.value for k in c.keywords if k.arg == "always_yield"), None)
+                ok = isinstance(kw, ast.Constant) and kw.value is True
+                if not ok:
+                    run.finding("C16.fifo", fn, c, "the trio datagram listener no longer yields after every datagram: several readable datagrams are turned into tasks back-to-back in one scheduler batch, "
+                                "whose execution order trio does not define - a client's datagrams can be handled out of arrival order")
+                run.ob("C16.fifo", f"trio.{fn.short}:yields-after-every-datagram", ok)
+    rs = util.functions.get("retry_socket_method")
+    if rs is not None:
+        aliases = {}
+        for st in util.tree.body:
+            if isinstance(st, ast.ImportFrom):
+                for a in st.names:
+                    aliases[a.asname or a.name] = a.name
+        rets = [r for r in own_nodes(rs.node) if isinstance(r, ast.Return) and isinstance(r.value, ast.Name)]
+        res = {r.value.id for r in rets}
+        bad = []
+        for t in [x for x in own_nodes(rs.node) if isinstance(x, ast.Try)]:
+            if any(isinstance(a, (ast.Assign, ast.AnnAssign)) and any(isinstance(tg, ast.Name) and tg.id in res for tg in (a.targets if isinstance(a, ast.Assign) else [a.target])) for b in t.body for a in ast.walk(b)):
+                for aw in [x for st in t.orelse for x in ast.walk(st) if isinstance(x, ast.Await)]:
+                    nm = (dotted(aw.value.func) if isinstance(aw.value, ast.Call) else "") or ""
+                    real = aliases.get(nm.split(".")[-1], nm.split(".")[-1])
+                    if "shielded" not in real:
+                        bad.append(aw)
+                n += 1
+        for aw in bad[:1]:
+            run.finding("C16.fifo", rs, _stmt_at(rs, aw.lineno), "the yield taken after a successful socket call - while its result is held in a local - is not cancel-shielded: a cancellation delivered there "
+                        "drops a datagram that was already taken from the socket")
+        run.ob("C16.fifo", "trio.retry_socket_method:result-held-only-across-a-shielded-yield", not bad)
+    run.count("trio_listener_sites", n)
+
+
 def check_nothing_dropped(eng, run):
     """a datagram taken out of a client's queue reaches the handler: no cancellable suspension point, raising call or exit while a local
     still holds it (hold typestate of C10, datagram semantics: an empty payload is a datagram)"""
@@ -505,6 +550,10 @@ def run(eng, run):
     run.attempt(check_single_and_atomic, eng, run)
     run.attempt(check_fifo, eng, run)
     run.attempt(check_handler_passthrough, eng, run)
+    run.attempt(check_trio_listener, eng, run)
+    from sa.analyses.sharing import check_unbounded_queues
+    from sa.report import RuleAlias as _RA16
+    run.attempt(check_unbounded_queues, eng, _RA16(run, "C16.fifo"), "C16.fifo", lambda m: "datagram" in m, 2)
     run.attempt(check_nothing_dropped, eng, run)
     run.end_of_rules()
 
